@@ -187,3 +187,51 @@ package httpgen
 //@   ensures ok: err == nil ==> (forall k int :: 0 <= k && k < len(service.Methods) ==> len(ValidateMethodConfig(service, service.Methods[k])) == 0)
 //@   ensures refuses: err != nil ==> (exists k int :: 0 <= k && k < len(service.Methods) && len(ValidateMethodConfig(service, service.Methods[k])) > 0)
 //@   loop 1 invariant forall k int :: 0 <= k && k < _i1 ==> len(ValidateMethodConfig(service, service.Methods[k])) == 0
+
+// ---- termination measures of the recursive traversals (C16) ----
+
+//@ func collectBytesEncodingMessages(messages []*protogen.Message, contexts *[]*BytesEncodingContext)
+//@   modifies contexts
+//@   decreases spec.depth(messages)
+
+//@ func collectEmptyBehaviorMessages(messages []*protogen.Message, contexts *[]*EmptyBehaviorContext)
+//@   modifies contexts
+//@   decreases spec.depth(messages)
+
+//@ func collectFlattenMessages(messages []*protogen.Message, contexts *[]*FlattenContext)
+//@   modifies contexts
+//@   decreases spec.depth(messages)
+
+//@ func collectInt64EncodingMessages(messages []*protogen.Message, contexts *[]*Int64EncodingContext)
+//@   modifies contexts
+//@   decreases spec.depth(messages)
+
+//@ func collectNullableMessages(messages []*protogen.Message, contexts *[]*NullableContext)
+//@   modifies contexts
+//@   decreases spec.depth(messages)
+
+//@ func collectOneofDiscriminatorMessages(messages []*protogen.Message, contexts *[]*OneofDiscriminatorContext)
+//@   modifies contexts
+//@   decreases spec.depth(messages)
+
+//@ func collectTimestampFormatMessages(messages []*protogen.Message, contexts *[]*TimestampFormatContext)
+//@   modifies contexts
+//@   decreases spec.depth(messages)
+
+//@ func collectEnumsFromMessage(msg *protogen.Message, contexts *[]*EnumEncodingContext, seen map[string]bool)
+//@   modifies contexts
+//@   decreases spec.mdepth(msg)
+
+//@ func collectRootUnwrapMessages(messages []*protogen.Message, unwrapMessages map[string]*annotations.UnwrapFieldInfo, ctx *UnwrapContext)
+//@   modifies ctx
+//@   decreases spec.depth(messages)
+
+//@ func collectUnwrapFieldsRecursive(messages []*protogen.Message, result map[string]*annotations.UnwrapFieldInfo) (err error)
+//@   decreases spec.depth(messages)
+
+//@ func findMapFieldsWithUnwrap(messages []*protogen.Message, unwrapMessages map[string]*annotations.UnwrapFieldInfo, ctx *UnwrapContext)
+//@   modifies ctx
+//@   decreases spec.depth(messages)
+
+//@ func (g *Generator) collectMessageFieldExamples(gf *protogen.GeneratedFile, message *protogen.Message, prefix string)
+//@   decreases spec.mdepth(message)
